@@ -11,7 +11,12 @@ from jaqalpaq.core.algorithm.expand_macros import MacroExpander, GateReplacer
 from jaqalpaq.core.algorithm.expand_subcircuits import SubcircuitExpander
 from jaqalpaq.core.algorithm.fill_in_map import MapFiller
 from contracts_subcircuits import wf_stmt, wf_expander
-from contracts_macros import wf_body
+from contracts_macros import wf_body, wf_count
+from jaqalpaq.core.constant import Constant
+from jaqalpaq.core.parameter import Parameter
+from contracts_registers import wf_qubit, root, phys, ival
+from jaqalpaq.core.gatedef import AbstractGate
+from jaqalpaq.core.register import NamedQubit
 
 
 # ---------------------------------------------------------------- abstract values: "what pass P returns for c"
@@ -138,16 +143,46 @@ class ParseFlags:
 
 
 # ---------------------------------------------------------------- fill_in_map: the statement-level emitters
-@assumed("core.algorithm.fill_in_map:MapFiller.visit_GateStatement", props=["C10"])
-class MapGateAssumed:
-    """Assumed (the argument walk is a generator over a visitor dispatch; the qubit case is MapFiller.visit_NamedQubit,
-    proved under C06/C14): emits a gate S-expression."""
+@spec
+def wf_map_arg(a) -> bool:
+    """arguments fill_in_map meets once lets and macros are gone: numbers, whole registers, well-formed qubit references"""
+    return (is_int(a) or is_float(a) or type_is(a, Register) or type_is(a, Constant) or type_is(a, Parameter)
+            or (type_is(a, NamedQubit) and wf_qubit(a)))
+
+
+@spec
+def wf_mbody(o) -> bool:
+    """statement trees fill_in_map walks: counts typed as in wf_body, gate arguments wf_map_arg"""
+    if isinstance(o, LoopStatement):
+        return type_is(o, LoopStatement) and wf_count(o._iterations) and type_is(o._statements, BlockStatement) and wf_mbody(o._statements)
+    if isinstance(o, BlockStatement):
+        return (type_is(o, BlockStatement) and isinstance(o._statements, list) and is_bool(o._parallel) and is_bool(o._subcircuit)
+                and (same(o._iterations, 1) if not o._subcircuit else wf_count(o._iterations))
+                and forall_range(len(o._statements), lambda k: wf_mbody(o._statements[k])))
+    return (type_is(o, GateStatement) and isinstance(o._parameters, dict) and isinstance(o._gate_def, AbstractGate)
+            and forall_range(dict_len(o._parameters), lambda j: wf_map_arg(dict_val_at(o._parameters, j))))
+
+
+@contract("core.algorithm.fill_in_map:MapFiller.visit_GateStatement", props=["C10", "C06"])
+class MapGate:
+    """emits ["gate", name, args...] with one entry per argument, in order: a qubit reference becomes the
+    reference root[phys] of the C06 specification, every other argument is passed through unchanged"""
 
     def requires(self, gate):
-        return type_is(self, MapFiller) and isinstance(gate, GateStatement)
+        return (type_is(self, MapFiller) and type_is(gate, GateStatement) and isinstance(gate._parameters, dict) and isinstance(gate._gate_def, AbstractGate)
+                and forall_range(dict_len(gate._parameters), lambda j: wf_map_arg(dict_val_at(gate._parameters, j))))
 
-    def ensures(self, gate, result):
-        return isinstance(result, list) and len(result) >= 2 and result[0] == "gate"
+    def ensures_shape(self, gate, result):
+        return (isinstance(result, list) and len(result) == dict_len(gate._parameters) + 2 and result[0] == "gate"
+                and same(result[1], gate._gate_def._name))
+
+    def ensures_args(self, gate, result):
+        return forall_range(dict_len(gate._parameters), lambda j:
+                            implies(type_is(dict_val_at(gate._parameters, j), NamedQubit),
+                                    type_is(result[j + 2], NamedQubit)
+                                    and same(result[j + 2]._alias_from, root(dict_val_at(gate._parameters, j)._alias_from))
+                                    and same(result[j + 2]._alias_index, phys(dict_val_at(gate._parameters, j)._alias_from, ival(dict_val_at(gate._parameters, j)._alias_index))))
+                            and implies(not type_is(dict_val_at(gate._parameters, j), NamedQubit), same(result[j + 2], dict_val_at(gate._parameters, j))))
 
     raises_only = ("JaqalError",)
 
@@ -186,7 +221,7 @@ class MapBlock:
     entry per child statement"""
 
     def requires(self, block):
-        return type_is(self, MapFiller) and type_is(block, BlockStatement) and wf_body(block)
+        return type_is(self, MapFiller) and type_is(block, BlockStatement) and wf_mbody(block)
 
     def ensures_subcircuit(self, block, result):
         return implies(block._subcircuit, isinstance(result, list) and len(result) == len(block._statements) + 2
@@ -208,7 +243,7 @@ class MapLoop:
     """emits ["loop", <the same count>, <block>]"""
 
     def requires(self, loop):
-        return type_is(self, MapFiller) and type_is(loop, LoopStatement) and wf_body(loop)
+        return type_is(self, MapFiller) and type_is(loop, LoopStatement) and wf_mbody(loop)
 
     def ensures(self, loop, result):
         return isinstance(result, list) and len(result) == 3 and result[0] == "loop" and same(result[1], loop._iterations)
